@@ -1705,8 +1705,7 @@ impl TypeLayout {
     pub fn supports_negate(&self) -> bool {
         let me = self.get_type_recursively();
         match me {
-            Self::Native(NativeType::Str(_) | NativeType::Byte) => false,
-            Self::Native(_) => true,
+            Self::Native(NativeType::Int | NativeType::BigInt | NativeType::Float) => true,
             _ => false,
         }
     }
